@@ -35,18 +35,22 @@ theorem C03_check_sound (code : List Instr) (a : Top) : check code a = true → 
   simp only [codeTree, astTree] at heq
   rw [heq]
 
+theorem evalClauses_not_stuck (I : Interp) (elt : Expr) : ∀ (cl : List Clause) (loops : List (Val × List Nat)),
+    evalClauses I elt loops cl ≠ .stuck
+  | [], _ => by simp [evalClauses]
+  | c :: cs, loops => by
+      simp only [evalClauses]
+      split
+      · exact evalClauses_not_stuck I elt cs _
+      · simp
+
 /-- an accepted pair never gets stuck (stack underflow, jump out of the code, unsupported instruction, out of fuel) -/
 theorem C03_check_not_stuck (code : List Instr) (a : Top) : check code a = true → ∀ I : Interp, run code I ≠ .stuck := by
   intro h I
   rw [C03_check_sound code a h I]
   cases a with
   | lam b => simp [Top.eval]
-  | gen elt cl =>
-    simp only [Top.eval]
-    generalize ([] : List (Val × List Nat)) = loops
-    induction cl generalizing loops with
-    | nil => simp [evalClauses]
-    | cons c cs ih => simp only [evalClauses]; split <;> simp [ih]
+  | gen elt cl => exact evalClauses_not_stuck I elt cl []
 
 /-! ### the checker accepts real pairs (atoms: 0 = `.0`, 1 = i, 2 = a, 3 = b, 4 = c) -/
 
@@ -59,7 +63,7 @@ def astEqNotOr : Expr := .cmp (.atom 2) (.last (.named "==") (.boolop true (.not
 
 /-- `(i for i in .0 if a == (b and c))` as compiled by CPython 3.12 -/
 def codeGenEqAnd : List Instr :=
-  [.load 0, .forIter, .store 1, .load 2, .load 3, .copy 1, .jumpIf false 8, .popTop, .load 4, .cmp (.named "=="),
+  [.load 0, .forIter, .store 1, .load 2, .load 3, .copy 1, .jumpIf false 9, .popTop, .load 4, .cmp (.named "=="),
    .jumpIf true 12, .jumpBack 1, .load 1, .yieldValue, .popTop, .jumpBack 1]
 def genOf (cond : Expr) : Top := .gen (.atom 1) [{ targets := [1], iter := .atom 0, ifs := [cond] }]
 
